@@ -812,6 +812,11 @@ func (m memoizedContext) after(c context) context {
 	if strings.HasPrefix(out.attr.value, relativeValueMark) {
 		out.attr.value = c.attr.value + out.attr.value[len(relativeValueMark):]
 	}
+	if c.state == stateAttr && out.state == stateAttr {
+		// What is known about the part of the value before the call is not forgotten.
+		out.attr.dynamic = out.attr.dynamic || c.attr.dynamic
+		out.attr.dynamicStart = out.attr.dynamicStart || c.attr.dynamicStart
+	}
 	return out
 }
 
